@@ -122,6 +122,12 @@ class RObj(SObj):
     def length(self, ctx):
         return self.getattr(ctx, '__len__').call(ctx, (), {})
 
+    def pytype(self, ctx):
+        t = ctx.interp.globals.get(self.clsname)
+        if t is None:
+            raise Unsupported('type() of a %s: the class is not bound in the contract globals' % self.clsname)
+        return t
+
     def truth(self, ctx):
         for nm in ('__bool__', '__len__'):
             if self._find(nm) is not None:
